@@ -17,7 +17,7 @@ def positional(check):
         rng = random.Random(derive_seed(check.seed, "c04", name))
         steps0, _ = fn(rng)
         for pos, s0 in enumerate(steps0):
-            for kind in FAILS + ["disabled", "disabled-expr"]:
+            for kind in FAILS + ["disabled", "disabled-expr", "disabled-literal", "enabled-literal"]:
                 rng = random.Random(derive_seed(check.seed, "c04", name))
                 steps, outs = fn(rng)
                 outcome = {}
@@ -26,6 +26,10 @@ def positional(check):
                     s.fields["enabled"] = Expr(Not(In("flag")))
                 elif kind == "disabled-expr":
                     s.fields["enabled"] = Expr(Bin("==", In("tag"), Lit("never-equal")))
+                elif kind == "disabled-literal":
+                    s.fields["enabled"] = False  # written as the constant `false` in the workflow file
+                elif kind == "enabled-literal":
+                    s.fields["enabled"] = True
                 else:
                     outcome[s.name] = kind
                 outs["dis_" + s.name] = {"m": OrDisabled(Ref(s.name, "outputs", "success"))}
@@ -63,6 +67,17 @@ def run(check):
     gs = positional(check)
     for i in range(check.pick(20, 200)):
         gs.append(two_hop_stop(check, i))
+    # the same construction with every assignment of {0, 40, 90} ms to the first three hits of the points at which a
+    # step goroutine picks up its starting input: in some of them exactly the stopped step is the slow one
+    targeted = []
+    for pt in ("pl:runningStep.startStage:lock#1", "pl:runningStep.startStage:select#1"):
+        for d1 in (0, 40, 90):
+            for d2 in (0, 40, 90):
+                for d3 in (0, 40, 90):
+                    g = two_hop_stop(check, 1000 + len(targeted))
+                    g["shape"] = "two_hop_stop/targeted"
+                    sites = [{"point": pt, "hit": h + 1, "ms": d} for h, d in enumerate((d1, d2, d3)) if d]
+                    targeted.append((g, {"sites": sites, "record": True} if sites else None))
     for i in range(check.pick(150, 2500)):
         g = runfam.gen_terminating(check.seed, "c04-%d" % i, p_fail=0.4, outcomes=FAILS)
         if g is not None:
@@ -76,6 +91,10 @@ def run(check):
             opts["plan_scope"] = "execute"
         case, sem = runfam.build_case("c04-%05d" % i, g, **opts)
         items.append((case, sem, g))
+    for j, (g, plan) in enumerate(targeted):
+        opts = {"plan": plan, "plan_scope": "execute"} if plan else {}
+        case, sem = runfam.build_case("c04-t%04d" % j, g, **opts)
+        items.append((case, sem, g))
     stats = {"steps_that_must_not_run": 0, "steps_observed_not_running": 0, "stopped_before_start": 0}
 
     def on_result(cid, case, sem, g, res, vs):
@@ -85,7 +104,7 @@ def run(check):
             stats["steps_that_must_not_run"] += len(must_not)
             stats["steps_observed_not_running"] += len([m for m in must_not if m not in ran])
             check.nontrivial("%s|ran=%s" % (g["shape"], ran))
-        if g["shape"] == "two_hop_stop":
+        if g["shape"].startswith("two_hop_stop"):
             run = (res.get("runs") or [{}])[0]
             if run.get("out_id") == "stopped":
                 stats["stopped_before_start"] += 1
